@@ -1,5 +1,5 @@
 """C12 — Rendering is deterministic, follows the documented mapping, refuses conflicts."""
-import os, json, random, hashlib, concurrent.futures
+import json, os, json, random, hashlib, concurrent.futures
 from vlib.common import *
 from vlib import coqrun as cq
 from props import _render as R
@@ -156,5 +156,27 @@ def run(ctx):
         cases.append((R.coq_case(case, res), rec))
     total = sum(len(c[0]) for c in cases)
     ctx.log('render_matrix: %d cases, %d chars of Coq literals' % (len(cases), total))
-    for c in ctx.corr('render_matrix', HEADER, 'check_render', 'case', cases, shard_chars=50000):
+    failing = ctx.corr('render_matrix', HEADER, 'check_render', 'case', cases, shard_chars=50000)
+    # search for a concrete failing input near each disagreeing case: the same configuration with every option
+    # spelled as a documented boolean (junk spellings dropped -> default) and codex_home given as a plain path, so
+    # that the docs-derived reference renderer covers it and the oracle can judge the implementation directly
+    found = 0
+    for c in failing[:8]:
+        variant = R.case_from_json(json.loads(json.dumps(c['case'])))
+        for t, tc in variant['targets'].items():
+            for k in list(tc['options']):
+                v = tc['options'][k]
+                if k == 'codex_home':
+                    if not isinstance(v, str) or not v.strip(): del tc['options'][k]
+                elif not isinstance(v, bool):
+                    del tc['options'][k]
+        if 'default' not in variant['profiles']:
+            continue
+        res = run_one((variant, perms_for(rng, variant)))
+        ctx.count('attack', key=c.get('index'), tags=['attack'])
+        bad = oracle(variant, res, docopts)
+        if bad:
+            found += 1
+            ctx.violation(bad[0], {'stream': 'render_matrix', 'case': R.case_json(variant), 'derived_from': c.get('index'), 'oracle': bad[:5]})
+    for c in failing:
         ctx.violation('model and implementation disagree on the rendered desired state (files / ids / roots / error code)', c, no_input=True)
